@@ -68,7 +68,12 @@ def judge(d):
     from scipy.spatial.transform import Rotation
     R = Rotation.from_rotvec(np.array([m["rot"]["rv"] for m in d["mols"]], dtype=np.float64))
     mole = Molecules(pos_px * scale, R)
-    loader = SubtomogramLoader(as_input(tomo, d), mole, order=order, scale=scale, output_shape=shape,
+    # order / output_shape as python ints or as numpy integers (values read from a header or an array)
+    af = d.get("argform", "py")
+    order_arg = np.uint8(order) if af == "np-small" else (np.int64(order) if af == "np-scalar" else order)
+    shape_arg = (np.array(shape, dtype=np.uint8) if af == "np-small"
+                 else (np.int64(shape[0]) if af == "np-scalar" and len(set(shape)) == 1 else shape))
+    loader = SubtomogramLoader(as_input(tomo, d), mole, order=order_arg, scale=scale, output_shape=shape_arg,
                                corner_safe=cs)
     G = region_G(shape, cs)
     t64 = tomo.astype(np.float64)
@@ -238,6 +243,7 @@ def cases(draw):
         chunks = draw(gen.chunkings(tshape, min_chunk=2))
     scale = draw(st.sampled_from([1.0, 0.5, 2.0, 0.3, 1.1, 0.2634, 1.37, 3.3])) if exact else draw(gen.scales)
     return {"tshape": tshape, "seed": draw(gen.seeds), "sigma": draw(st.sampled_from([0.6, 1.0, 1.5])),
+            "argform": draw(st.sampled_from(["py", "py", "py", "np-small", "np-scalar"])),
             "shape": shape, "order": order, "scale": scale, "corner_safe": draw(st.booleans()),
             "mols": mols, "chunks": chunks, "kind": kind, "exact": exact,
             "tdtype": draw(st.sampled_from(["float32", "float32", "float32", "float64", "float16", "float16-big"]))}
